@@ -400,7 +400,7 @@ func TestC17(t *testing.T) {
 		c.FailIfViolations(t)
 	}
 
-	rapid.Check(t, func(rt *rapid.T) {
+	checkRapid(t, c, func(rt *rapid.T) {
 		name := names[gen.Pick(rt, "field", len(names))]
 		wd := width[name]
 		bits := 8 * wd
